@@ -928,6 +928,7 @@ pub fn run(tier: Tier, seed: u64) -> i32 {
     });
 
     super::c18::sanitizer_summary(&ev, "C17");
+    fuzz_summary(&ev);
     for d in DECODERS {
         ev.floor(&format!("inputs past the length framing: {d:?}"), ev.bucket_get(&format!("framed.{d:?}")), tier.pick(150, 500));
     }
@@ -936,4 +937,151 @@ pub fn run(tier: Tier, seed: u64) -> i32 {
     ev.floor("compressed-circuit inputs", ev.bucket_get("decoder.Compressed"), tier.pick(2000, 40000));
     ev.floor("rejected inputs", ev.bucket_get("rejected"), tier.pick(2000, 20000));
     ev.finish()
+}
+
+// ---------------------------------------------------------------------------
+// Coverage-guided workload (libFuzzer target `harness/fuzz`, thorough tier).
+// ---------------------------------------------------------------------------
+
+fn fuzz_originals() -> &'static Originals {
+    static O: std::sync::OnceLock<Originals> = std::sync::OnceLock::new();
+    O.get_or_init(|| {
+        crate::util::PP_MIN_SETUP.store(64, std::sync::atomic::Ordering::Relaxed);
+        let mut rng = crate::mon::rng::fixed_rng(0xF022);
+        let a = common::specimen(&mut rng, &GenCfg::all(), 12, b"c17-fuzz").expect("fuzz specimen");
+        let b = common::specimen(&mut rng, &GenCfg::all(), 13, b"c17-fuzz-o").expect("fuzz specimen");
+        originals_for(a, &b, 17)
+    })
+}
+
+/// One coverage-guided input: `sel` picks the decoder (one extra slot for the
+/// compressed-circuit decoder), `bytes` is its input. The oracle of the main
+/// workload minus the calibrated allocation bound (libFuzzer's malloc limit
+/// stands in for it): no panic, accepted values independently valid and
+/// usable.
+pub fn fuzz_warm_up() {
+    let _ = fuzz_originals();
+}
+
+pub fn fuzz_one(sel: u8, bytes: &[u8]) -> Result<(), String> {
+    let o = fuzz_originals();
+    let idx = sel as usize % (DECODERS.len() + 1);
+    if idx == DECODERS.len() {
+        let deg = common::min_degree(o.spec.rows);
+        let pp = crate::util::pp(deg);
+        let m = crate::gen::cc::max_constraints(pp.max_degree());
+        return match guard(|| dv::composer_from_bytes(bytes, m).map(|c| c.constraints())) {
+            Err(p) => Err(format!("Compressed:panic:{}", panic_site(&p))),
+            Ok(Err(_)) => Ok(()),
+            Ok(Ok(rows)) => {
+                if rows > m {
+                    return Err("Compressed:accepted-beyond-capacity".into());
+                }
+                match guard(|| dusk_plonk::prelude::Compiler::compile_with_compressed(&pp, b"c17fz", bytes)) {
+                    Ok(_) => Ok(()),
+                    Err(p) => Err(format!("Compressed:accepted-description-panics-on-compile:{}", panic_site(&p))),
+                }
+            }
+        };
+    }
+    let d = DECODERS[idx];
+    match decode(d, bytes) {
+        Err(p) => Err(format!("{d:?}:panic:{}", panic_site(&p))),
+        Ok(Err(_)) => Ok(()),
+        Ok(Ok(val)) => {
+            validity(d, bytes, &val).map_err(|w| format!("{d:?}:accepted-malformed:{w}"))?;
+            usability(o, &val).map_err(|p| format!("{d:?}:accepted-value-panics-in-use:{}", panic_site(&p)))?;
+            Ok(())
+        }
+    }
+}
+
+/// `vh C17 --sub corpus:<dir>`: valid encodings (selector byte in front) as
+/// the seed corpus of the fuzz target.
+pub fn write_corpus(dir: &str) -> i32 {
+    let _ = std::fs::create_dir_all(dir);
+    let o = fuzz_originals();
+    let mut n = 0;
+    for (set, tag) in [(&o.bytes, "a"), (&o.other, "b")] {
+        for (i, (_, b)) in set.iter().enumerate() {
+            let mut v = vec![i as u8];
+            v.extend_from_slice(b);
+            if std::fs::write(format!("{dir}/valid-{tag}-{i}"), &v).is_ok() {
+                n += 1;
+            }
+        }
+    }
+    if let Ok(c) = common::compress(&o.spec.prog) {
+        let mut v = vec![DECODERS.len() as u8];
+        v.extend_from_slice(&c);
+        let _ = std::fs::write(format!("{dir}/valid-compressed"), &v);
+        n += 1;
+    }
+    println!("CORPUS written={n} dir={dir}");
+    0
+}
+
+/// Fold the result of the libFuzzer pre-run (driver: `bin/check C17
+/// thorough`) into the evidence: every artifact is replayed in-process
+/// through `fuzz_one` (crash), the counting allocator (oom) or a threefold
+/// timing (timeout); only a reproduced defect is a violation.
+fn fuzz_summary(ev: &Ev) {
+    let ran = std::env::var("VH_FUZZ_RAN").unwrap_or_default();
+    if ran.is_empty() {
+        ev.extra("libfuzzer", json!({"ran": false, "why": "not requested (quick tier or VERIF_NO_SANITIZERS=1)"}));
+        return;
+    }
+    let execs: u64 = std::env::var("VH_FUZZ_EXECS").ok().and_then(|s| s.parse().ok()).unwrap_or(0);
+    let cov: u64 = std::env::var("VH_FUZZ_COV").ok().and_then(|s| s.parse().ok()).unwrap_or(0);
+    let dir = std::env::var("VH_FUZZ_ARTIFACTS").unwrap_or_default();
+    let mut arts: Vec<std::path::PathBuf> = std::fs::read_dir(&dir).map(|d| d.flatten().map(|e| e.path()).collect()).unwrap_or_default();
+    arts.sort();
+    let (mut reproduced, mut not_reproduced) = (0u64, 0u64);
+    for path in &arts {
+        let name = path.file_name().and_then(|n| n.to_str()).unwrap_or("").to_string();
+        let Ok(data) = std::fs::read(path) else { continue };
+        if data.is_empty() {
+            continue;
+        }
+        let (sel, bytes) = (data[0], &data[1..]);
+        let which = if (sel as usize % (DECODERS.len() + 1)) == DECODERS.len() { "Compressed".to_string() } else { format!("{:?}", DECODERS[sel as usize % (DECODERS.len() + 1)]) };
+        let detail = json!({"artifact": name, "decoder": which, "input_len": bytes.len(), "input": hex::encode(&bytes[..bytes.len().min(2048)])});
+        if name.starts_with("oom-") {
+            let (_, region) = alloc::measure(|| fuzz_one(sel, bytes));
+            if alloc::enabled() && region.peak > 64 * bytes.len() + (64 << 20) {
+                reproduced += 1;
+                ev.violation(&format!("C17:{which}:fuzz:allocation-beyond-bound"), json!({"peak": region.peak, "case": detail}));
+            } else {
+                not_reproduced += 1;
+            }
+        } else if name.starts_with("timeout-") || name.starts_with("slow-unit-") {
+            let slow = (0..3).filter(|_| {
+                let t = Instant::now();
+                let _ = fuzz_one(sel, bytes);
+                t.elapsed() > Duration::from_secs(5)
+            }).count();
+            if slow == 3 {
+                reproduced += 1;
+                ev.violation(&format!("C17:{which}:fuzz:decode-time-unbounded"), detail);
+            } else {
+                not_reproduced += 1;
+            }
+        } else {
+            match fuzz_one(sel, bytes) {
+                Err(why) => {
+                    reproduced += 1;
+                    let w = why.split(|c: char| c.is_ascii_digit()).next().unwrap_or("").trim_end_matches(':').to_string();
+                    ev.violation(&format!("C17:fuzz:{w}"), json!({"why": why, "case": detail}));
+                }
+                Ok(()) => not_reproduced += 1,
+            }
+        }
+    }
+    ev.extra("libfuzzer", json!({"ran": ran, "executions": execs, "coverage_edges": cov, "artifacts": arts.len(), "artifacts_reproduced": reproduced, "artifacts_not_reproduced": not_reproduced}));
+    ev.bucket_add("libfuzzer.executions", execs);
+    if ran != "ok" {
+        ev.inconclusive(&format!("libFuzzer pre-run did not complete: {ran}"));
+    } else if not_reproduced > 0 {
+        ev.inconclusive(&format!("{not_reproduced} libFuzzer artifact(s) did not reproduce in-process (kept under {dir})"));
+    }
 }
